@@ -32,6 +32,8 @@ import (
 var (
 	baseDir string
 	projDir string
+	// straceMarks: bracket every build with two recognisable system calls (C14, thorough tier, worker under strace)
+	straceMarks = os.Getenv("VERIF_STRACE_MARK") == "1"
 )
 
 // ---- hook state (single-threaded worker; in conc jobs the observers are nil except yield) ----
@@ -459,7 +461,13 @@ func runJob(j *proto.Job) (res *proto.Result) {
 		runSeqs(j, res)
 		return res
 	}
+	if straceMarks {
+		_, _ = os.Stat("/__verif_mark_begin")
+	}
 	b := build(j, "build")
+	if straceMarks {
+		_, _ = os.Stat("/__verif_mark_end")
+	}
 	res.Accepted, res.Err, res.Panic = b.accepted, b.err, b.panic
 	if j.WantFiles {
 		res.Files = hs.files
